@@ -63,7 +63,7 @@ take(4096), set operations against fixed issuer resources, asn_count, Display / 
 panic; when the counting allocator is installed: peak live bytes <= 64*len + 1 MiB and allocation calls <= 64*len + 4096 \
 per decode + walk. non-trivial = the decoder returned Ok (walk ran), or its first stage succeeded (outer SignedData / \
 SignedObject / SignedMessage / key-info text accepted, failure in the typed content), or the reported error position lies \
-behind the headers of the first three nested TLVs of the input. Entry points without a strict flag of their own (certificate, CRL, identity certificate, public key) are reached through X::decode (DER) and through the public X::take_from under a BER-mode decoder; the manifest content is also decoded on its own through ManifestContent::take_from in DER and BER mode (the ROA and ASPA content decoders are private); the walk drives the file-list, prefix and provider iterators through count / last / nth / size_hint as well.";
+behind the headers of the first three nested TLVs of the input. Entry points without a strict flag of their own (certificate, CRL, identity certificate, public key) are reached through X::decode (DER) and through the public X::take_from under a BER-mode decoder; the manifest content is also decoded on its own through ManifestContent::take_from in DER and BER mode (the ROA and ASPA content decoders are private); the walk drives the file-list, prefix and provider iterators through count / last / nth / size_hint as well. The string operator writes, besides the table of edge strings, calendar-shaped time values generated from a number (any century, month 0..13, day 0 / 28..32, hour to 24, minute / second to 60, in the form that goes with the tag).";
 
 //------------ seeds -------------------------------------------------------------
 
